@@ -312,7 +312,7 @@ def check_iosim(prop, tier, seed):
         cov["rule"] = (
             "A run = (script of writes of all supported types with a pre-fill that aims the buffer fill level at BUF-45..BUF, "
             "sink acceptance trace with partial accepts and Interrupted bursts, early end = drop at a seeded point); plus the explicit sweep "
-            "(every fill level BUF-45..BUF x 12 integer types x {MAX, MIN, one digit short, 0} x 2 sink behaviours). "
+            "(every fill level BUF-45..BUF x 12 integer types x {MAX, MIN, one digit short, 0} x 2 sink behaviours). Round-trip runs read the delivered text back through the real Reader twice: under a seeded delivery trace and in pipe mode (the Reader receives exactly the packets the sink accepted). "
             "evaluations = executed runs against the real Writer. distinct_nontrivial = number of distinct digests of "
             "(sequence of (operation kind, measured pending bytes at start, rendering length), first 128 sink calls as (offered, accepted|interrupted)) "
             "among runs with a partial accept, a fault, or a write that did not fit the remaining buffer space."
